@@ -366,6 +366,11 @@ impl Admin {
                 }
                 _ => {
                     let dest = acc.emissions_destination_account;
+                    if dest == Pubkey::default() {
+                        // no destination chosen: make sure the token account an attacker would name
+                        // (the associated account of the all-zero wallet) exists
+                        let _ = w.create_ata(dest, em).await;
+                    }
                     let dst = if r.gen_bool(0.8) { ix::ata(&dest, &bank.emissions_mint, &spl_token::ID) } else { w.users[0].tas[em] };
                     let i = ix::withdraw_emissions_permissionless(gk, w.accts[a].key, bal.bank_pk, bank.emissions_mint, dst, spl_token::ID);
                     let _ = w.exec(m, &[i], &[]).await;
